@@ -62,6 +62,7 @@ def _worker(fid):
             mi = o.get("model_info")
             if o["status"] == "refuted":
                 d["args"], d["replay"] = None, None
+                d["weakened"] = bool(mi and mi.get("weakened"))
                 try:
                     if mi and mi.get("model") is not None:
                         params = mi["obl"].meta.get("params") or {}
@@ -334,6 +335,8 @@ def _judge_refuted(pid, w, r, o, ledger, kf):
         with open(path, "w") as f:
             json.dump(body, f, indent=1, default=str)
         return ("violation", {"replay_file": path, "oid": o["oid"]})
+    if o.get("weakened"):
+        return ("undecided", "only a candidate counter-model of weakened hypotheses was found and it did not reproduce on the real code")
     if ledger.get(o["oid"]) == "discharged":
         body["no_failing_input_found"] = True
         body["solver_output"] = o.get("model") or o.get("note")
